@@ -13,6 +13,9 @@ V(id, verdict, dev, why) == [id |-> id, verdict |-> verdict, dev |-> dev, why |-
 SymVal(s) == IF s.kind = "num" THEN Num(s.val) ELSE IF s.kind = "str" THEN [k |-> "str", s |-> s.val] ELSE [k |-> "macro"]
 Sigma(r) == [p \in {r.syms[i].path : i \in 1..Len(r.syms)} |->
                SymVal(r.syms[CHOOSE i \in 1..Len(r.syms) : r.syms[i].path = p])]
+(* the valuation references are resolved in: without the variables, which every walk reads from its own course *)
+SigmaRef(r) == LET keep == {i \in 1..Len(r.syms) : r.syms[i].ty # "var"} IN
+               [p \in {r.syms[i].path : i \in keep} |-> SymVal(r.syms[CHOOSE i \in keep : r.syms[i].path = p])]
 ObsSeg(r, n) == r.segs[CHOOSE i \in 1..Len(r.segs) : r.segs[i].name = n]
 ObsSegNames(r) == {r.segs[i].name : i \in 1..Len(r.segs)}
 
@@ -37,9 +40,10 @@ Mismatch(r, sg, R) ==
 Judge(r) ==
   IF ~r.ok THEN <<>>                        \* C02 speaks about successful builds only
   ELSE LET sg == Sigma(r)
-           m1 == Mismatch(r, sg, RefF(r.prog, r.files, sg, r.pc0, TRUE)) IN
+           sr == SigmaRef(r)
+           m1 == Mismatch(r, sg, RefF(r.prog, r.files, sr, r.pc0, TRUE)) IN
        IF m1 = "" THEN <<>>
-       ELSE LET m2 == Mismatch(r, sg, RefF(r.prog, r.files, sg, r.pc0, FALSE)) IN     \* .align may pad 0 at an aligned pc
+       ELSE LET m2 == Mismatch(r, sg, RefF(r.prog, r.files, sr, r.pc0, FALSE)) IN     \* .align may pad 0 at an aligned pc
             IF m2 = "" THEN <<>> ELSE <<V(r.id, "violation", "", m1)>>
 
 Init == l = 1 /\ bad = <<>>
